@@ -26,7 +26,21 @@ int main()
     while (std::getline(std::cin, line)) {
         hx::Sexp e;
         size_t i = 0;
-        if (!hx::parseSexp(line, i, e) || e.head() != "eq" || e.size() < 4) { puts("bad-line"); continue; }
+        if (hx::parseSexp(line, i, e) && e.head() == "validate" && e.size() == 2) {
+            // (validate <model>): the model is built through the API (names may repeat anywhere in the tree); the rules of the error issues
+            std::string r = hx::forked([&]() {
+                auto m = hxe::buildModel(e[1]);
+                auto v = Validator::create();
+                v->validateModel(m);
+                std::string out = "rules";
+                for (size_t k = 0; k < v->errorCount(); ++k) out += " " + std::to_string(int(v->error(k)->referenceRule()));
+                return out;
+            });
+            printf("%s\n", r.c_str());
+            fflush(stdout);
+            continue;
+        }
+        if (e.head() != "eq" || e.size() < 4) { puts("bad-line"); continue; }
         std::string r = hx::forked([&]() { return run(e); });
         printf("%s\n", r.c_str());
         fflush(stdout);
